@@ -67,16 +67,26 @@ def _sampler_cfg(ctx, name, variant, nset, maxw, maxlen, maxb, unums, ubounds):
 def part_spec(ctx):
     quick = ctx.tier == "quick"
     runs = [
-        ("multi", [1, 2, 3], 3, 2, 3 if quick else 4, [0, 8, 15], [2, 3]),
-        ("interp", [1, 2, 3], 3, 2, 3 if quick else 4, [0, 8, 15], []),
+        ("multi", "NextAR", [1, 2, 3], 3, 2, 3 if quick else 4, [0, 8, 15], [2, 3]),
+        ("interp", "NextAR", [1, 2, 3], 3, 2, 3 if quick else 4, [0, 8, 15], []),
     ]
-    for variant, nset, maxw, maxlen, maxb, unums, ub in runs:
-        cfg = _sampler_cfg(ctx, "sampler_%s.cfg" % variant, variant, nset, maxw, maxlen, maxb, unums, ub)
-        r = tlc.run("Sampler", cfg, work=ctx.work, workers=16, timeout=1500)
+    if not quick:  # the general actions (bounds chosen freely among admissible values)
+        runs.append(("multi", "NextARG", [1, 2], 3, 2, 2, [0, 8, 15], [2, 3]))
+        runs.append(("interp", "NextARG", [1, 2], 3, 2, 2, [0, 8, 15], []))
+    for variant, nxt, nset, maxw, maxlen, maxb, unums, ub in runs:
+        cfg = _sampler_cfg(ctx, "sampler_%s_%s.cfg" % (variant, nxt), variant, nset, maxw, maxlen, maxb, unums, ub)
+        if nxt != "NextAR":
+            with open(cfg) as f:
+                txt = f.read().replace("NEXT NextAR", "NEXT " + nxt)
+            with open(cfg, "w") as f:
+                f.write(txt)
+        r = S.fix_coverage(tlc.run("Sampler", cfg, work=ctx.work, workers=16, timeout=1700))
         if r.violation:
-            raise tlc.MachineryError("Sampler (%s) violates its own invariant %s: %s" % (variant, r.violation, r.trace[-1:] if r.trace else ""))
-        ctx.tlc(r, "Sampler AR %s" % variant, vacuity_actions=["Batch", "ThinStep", "Truncate"])
-        ctx.part("spec_sampler_" + variant, states=r.distinct, batches=r.coverage.get("Batch", 0), thins=r.coverage.get("ThinStep", 0), truncations=r.coverage.get("Truncate", 0), max_batches=maxb, max_weight=maxw)
+            raise tlc.MachineryError("Sampler (%s, %s) violates its own invariant %s: %s" % (variant, nxt, r.violation, r.trace[-1:] if r.trace else ""))
+        general = nxt == "NextARG"
+        ctx.tlc(r, "Sampler AR %s %s" % (variant, nxt), vacuity_actions=["BatchG", "ThinGStep" if general else "ThinStep", "Truncate"])
+        ctx.part("spec_sampler_%s%s" % (variant, "_general" if general else ""), states=r.distinct, batches=r.coverage.get("BatchG", 0),
+                 thins=r.coverage.get("ThinGStep" if general else "ThinStep", 0), truncations=r.coverage.get("Truncate", 0), max_batches=maxb, max_weight=maxw)
 
 
 # ==========================================================================
@@ -127,7 +137,7 @@ def part_traces(ctx, rng):
         ctx.violation(_trace_key("multi", tr, k, reason), {"trace": tr, "first_unmatched_record": k, "reason": reason})
     n_thin = sum(any(e["a"] == "Thin" for e in t["ev"]) for t in traces)
     n_raise_user = sum(1 for t in traces if t["hasB"] and any(e["a"] == "Batch" and e["hasBin"] and Fraction(*e["local"]) != Fraction(*e["bin"]) for e in t["ev"]))
-    ctx.part("traces_multi", recorded=len(traces), accepted=acc, rejected=len(rej), with_thinning=n_thin, user_bound_raised=n_raise_user, exact_random_numbers=sum(1 for t in traces if t["exact"]))
+    ctx.part("traces_multi", model_drift=sum(S.drift_of(t, "multi") for t in traces), recorded=len(traces), accepted=acc, rejected=len(rej), with_thinning=n_thin, user_bound_raised=n_raise_user, exact_random_numbers=sum(1 for t in traces if t["exact"]))
     if n_thin == 0 or n_raise_user == 0:
         raise tlc.MachineryError("trace driver never reached thinning / raising of a user bound")
     ctx.count(len(traces), distinct_key="traces_multi")
@@ -153,7 +163,7 @@ def part_traces(ctx, rng):
     for tr, k, reason in rej:
         ctx.violation(_trace_key("interp", tr, k, reason), {"trace": tr, "first_unmatched_record": k, "reason": reason})
     n_thin_i = sum(any(e["a"] == "Thin" for e in t["ev"]) for t in itraces)
-    ctx.part("traces_interp", recorded=len(itraces), accepted=acc, rejected=len(rej), with_thinning=n_thin_i)
+    ctx.part("traces_interp", model_drift=sum(S.drift_of(t, "interp") for t in itraces), recorded=len(itraces), accepted=acc, rejected=len(rej), with_thinning=n_thin_i)
     if n_thin_i == 0:
         raise tlc.MachineryError("interp trace driver never reached thinning")
     ctx.count(len(itraces), distinct_key="traces_interp")
@@ -819,6 +829,7 @@ def part_model(ctx, rng):
 
 # ==========================================================================
 def run(ctx):
+    S.tame_malloc()
     rng = np.random.default_rng(ctx.seed)
     part_spec(ctx)
     ctx.log("specification checked")
